@@ -24,12 +24,23 @@ def actStr : Act → String
   | .running id => "R" ++ toString id
   | .runningSelf => "Q"
 
-/-- the callback line followed by one line per API call of its script -/
+/-- the name the harness asks for when the op names none: "verif.example.com" -/
+def defaultName : List Byte := "verif.example.com".toUTF8.toList
+
+/-- the query datagram as seen by the interposed `sendto` -/
+def queryStr (id : Nat) (name : List Byte) : String := "P q " ++ hexOfBytes (encodeQuery id name)
+
+/-- the callback line followed by one line per API call of its script (a `request()` made by the script is
+preceded by the query it sent) -/
 def eventStrs (e : Event) : List String :=
   ("P cb " ++ toString e.serial ++ " " ++ statusStr e.result.status ++
    " a=" ++ listStr (e.result.a.map fun r => toString r.ttl ++ ":" ++ hexOfBytes r.ip) ++
    " c=" ++ listStr (e.result.c.map fun r => toString r.ttl ++ ":" ++ hexOfBytes r.name)) ::
-  e.acts.map fun (a, ret) => "P act " ++ toString e.serial ++ " " ++ actStr a ++ " ret=" ++ toString ret
+  e.acts.flatMap fun (a, ret) =>
+    (match a with
+     | .lookup _ => if ret ≠ 0 then [queryStr ret defaultName] else []
+     | _ => []) ++
+    ["P act " ++ toString e.serial ++ " " ++ actStr a ++ " ret=" ++ toString ret]
 
 def parseAct (w : String) : Option Act :=
   if w == "S" then some .cancelSelf
@@ -46,8 +57,24 @@ def parseActs (w : String) : Option (List Act) :=
 /-- `lookup` without a script number: a callback that makes no API call -/
 def noScript : Nat := 1000000
 
+def parseNats (w : String) : Option (List Nat) :=
+  if w == "-" then some [] else (w.splitOn ",").mapM fun t => small? t 4096
+
+def parseKAns (w : String) : Option KAns :=
+  if w.isEmpty then none
+  else if w == "Z" then some (.data [])
+  else if w.startsWith "E" then (small? ((w.drop 1).toString) 4096).map .err
+  else if w == "-" then none
+  else (bytesOfHex w).map .data
+
 def parseOp (ws : List String) : Option Op :=
   match ws with
+  | ["lookupn", h, sid, send] => do
+      let name ← bytesOfHex h
+      let sid ← (if sid == "-" then some noScript else small? sid 64)
+      pure (.lookupN name sid (← parseNats send))
+  | ["sock", as] => do pure (.sock (← (as.splitOn ",").mapM parseKAns))
+  | ["recva", k, h] => do pure (.recvAt (← small? k 8) (← bytesOfHex h))
   | ["servers", n] => do pure (.servers (← small? n 4))
   | ["lookup"] => some (.lookup noScript)
   | ["lookup", sid] => do pure (.lookup (← small? sid 64))
@@ -90,6 +117,20 @@ def opTags (st : St) : Op → String
   | .running _ => "running"
   | .recv d => recvTags st d
   | .net d => "net " ++ (if d.length > 4096 then "net-truncated " else "") ++ recvTags st (d.take 4096)
+  | .lookupN name sid send =>
+      (if st.servers = 0 ∨ st.reqs.length ≥ 65535 then "lookup-refused" else "lookupn") ++
+      (if (st.scripts.getD sid []).isEmpty then "" else " lookup-scripted") ++
+      (if send.any (· ≠ 0) then " send-fault" else "") ++
+      (if (send.take st.servers).all (· ≠ 0) ∧ st.servers > 0 ∧ send.length ≥ st.servers then " send-all-fail" else "") ++
+      (if (splitDot name).any (fun l => l.length > 63) then " label-long" else "") ++
+      (if (splitDot name).any (fun l => l.length ≥ 256) then " label-wrap" else "") ++
+      (if (splitDot name).any (fun l => l.isEmpty) then " label-empty" else "") ++
+      (if (appendDomain name).length > 255 then " name-long" else "") ++
+      (if (encodeQuery 0 name).length > 65507 then " emsgsize" else "")
+  | .sock as => "sock" ++ (if as.any (fun a => match a with | .err _ => true | _ => false) then " recv-fault" else "") ++
+      (if as.length > 1 then " sock-multi" else "") ++ " " ++
+      (match as.getLast? with | some (.data d) => recvTags (sockRun st as.dropLast).1 (d.take 4096) | _ => "")
+  | .recvAt k d => "recva" ++ toString k ++ " " ++ recvTags st d
   | .tick => if st.valueNumber = 0 then "tick-idle" else if st.r1.isEmpty then "tick-empty"
              else if st.r1.any (fun t => match find st.reqs t.1 with | some r => r.serial != t.2 | none => false) then "tick-expire tick-stale-token"
              else "tick-expire"
@@ -119,6 +160,20 @@ def burstLoop : Nat → St → Nat → St × Nat
   | n + 1, st, _ =>
     let (s1, id) := lookup st noScript
     burstLoop n s1 id
+
+/-- a top-level `request()` that was accepted: the query bytes (`P`) and what the interposed `sendto` saw and
+answered, one call per configured server (`M`: a rewrite may legitimately batch or reorder the sends) -/
+def sendStrs (st : St) (op : Op) (ret : Nat) : List String :=
+  let go := fun (name : List Byte) (send : List Nat) =>
+    if ret = 0 then [] else
+    let q := encodeQuery ret name
+    [queryStr ret name,
+     "M sendto n=" ++ toString st.servers ++ " len=" ++ toString q.length ++ " rets=" ++
+       listStr ((List.range st.servers).map fun i => toString (sendRet q.length (send.getD i 0)))]
+  match op with
+  | .lookup _ => go defaultName []
+  | .lookupN name _ send => go name send
+  | _ => []
 
 structure DSt where
   orig : Bool
@@ -160,7 +215,8 @@ def stepLine (s : DSt) (line : String) : DSt × List String :=
       else
         let (st', o) := step s.st op
         ({ s with st := st' },
-         ["B " ++ opTags s.st op ++ " " ++ eventTags o.events, "P ret=" ++ toString o.ret] ++ o.events.flatMap eventStrs)
+         ["B " ++ opTags s.st op ++ " " ++ eventTags o.events, "P ret=" ++ toString o.ret] ++ sendStrs s.st op o.ret ++
+         o.events.flatMap eventStrs)
 
 def main (args : List String) : IO Unit :=
   runDriver { orig := args.contains "orig", st := init } stepLine
